@@ -28,7 +28,8 @@ package sms2fa
 //@   ensures some_code: true
 //@
 //@ func (*SMS).SendCodeToUser
-//@   property C02 C13 C18
+//@   property C02 C13 C18 C17
+//@   ensures[C17] no_secret_leak: secrets_clean
 //@   ghost sms_pid at Sess.Put(SessionSMSSecret, _) := pid
 //@   ghost sms_number at Sess.Put(SessionSMSSecret, _) := number
 //@   -- the code put into the session is the code sent, to the number given
@@ -40,7 +41,8 @@ package sms2fa
 //@   ensures[C18] no_panic: !panics
 //@
 //@ func (*SMS).HijackAuth
-//@   property C01 C02
+//@   property C01 C02 C17
+//@   ensures[C17] no_secret_leak: secrets_clean
 //@   requires SmsInv(r)
 //@   ensures[C02] hijack_parks: (!handled && ctxuser(r) != nil && len(SMSPhoneNumber(ctxuser(r))) != 0 && !panics) ==>
 //@       ((result.0 || result.1 != nil) && (emits Sess.Put(SessionSMSPendingPID, ?p) :: p == PID(ctxuser(r))))
@@ -51,7 +53,8 @@ package sms2fa
 //@   ensures[C02] code_goes_to_own_number: each SMS.Send(?num, _) => num == SMSPhoneNumber(ctxuser(r))
 //@
 //@ func (*SMSValidator).Post
-//@   property C01 C02 C03 C04 C12 C13 C18
+//@   property C01 C02 C03 C04 C12 C13 C18 C17
+//@   ensures[C17] no_secret_leak: secrets_clean
 //@   requires SmsInv(r) && ctx_user_is_session_user(r)
 //@   -- C01/C02: a login is completed only on the validate page, for the logged-in user or - when
 //@   -- nobody is logged in - for the account parked in sms_pending, against one of that account's
@@ -102,7 +105,8 @@ package sms2fa
 //@            sess_has(r, SessionSMSSecret) && sess(r, SessionSMSSecret) != "" && val(vals, "GetCode") == sess(r, SessionSMSSecret))
 //@
 //@ func (*SMS).PostSetup
-//@   property C13 C02
+//@   property C13 C02 C17
+//@   ensures[C17] no_secret_leak: secrets_clean
 //@   requires SmsInv(r) && ctx_user_is_session_user(r)
 //@   ensures[C13] nothing_saved: !emits Store.Save(_) && (each Sess.Put(?k, _) => k == SessionSMSNumber || k == SessionSMSLast || k == SessionSMSSecret)
 //@   ensures[C13] code_goes_to_posted_number: each SMS.Send(?num, _) => before Sess.Put(SessionSMSNumber, ?n) :: n == num
